@@ -94,16 +94,20 @@ inline void install_trap_handler() {
   sigaction(SIGFPE, &sa, nullptr);
 }
 // GUARD(ub, statement): ub = 1 iff the statement executed an undefined operation that trapped.
-#define VT_GUARD(ub, ...)                         \
-  do {                                            \
-    (ub) = 0;                                     \
-    vt::g_armed = 1;                              \
-    if (sigsetjmp(vt::g_jb, 1) == 0) {            \
-      __VA_ARGS__;                                \
-    } else {                                      \
-      (ub) = 1;                                   \
-    }                                             \
-    vt::g_armed = 0;                              \
+#define VT_GUARD(ub, ...)                                        \
+  do {                                                           \
+    sigjmp_buf vt_saved_;                                        \
+    const sig_atomic_t vt_was_ = vt::g_armed;                    \
+    memcpy(&vt_saved_, &vt::g_jb, sizeof vt_saved_);             \
+    (ub) = 0;                                                    \
+    if (sigsetjmp(vt::g_jb, 1) == 0) {                           \
+      vt::g_armed = 1;                                           \
+      __VA_ARGS__;                                               \
+    } else {                                                     \
+      (ub) = 1;                                                  \
+    }                                                            \
+    memcpy(&vt::g_jb, &vt_saved_, sizeof vt_saved_);             \
+    vt::g_armed = vt_was_;                                       \
   } while (0)
 
 // Sharded output: events are distributed round-robin over N files so that N JVMs validate them.
